@@ -51,7 +51,7 @@ fn gen_family(rng: &mut Rng, tables: &[Table]) -> Family {
     let extra_sql = if extra { format!(" AND x.b > {}", k) } else { String::new() };
     let extra_ok = |r: &Vec<V>| !extra || vint(&r[2]).map_or(false, |b| b > k);
     let int = |i: i64| Canon::Int(i as i128);
-    match rng.below(5) {
+    match rng.below(7) {
         4 => {
             // correlated NOT IN: for each x the subquery ranges over the y rows with y.b = x.b
             let members = vec![
@@ -66,6 +66,36 @@ fn gen_family(rng: &mut Rng, tables: &[Table]) -> Family {
                 .map(|rx| vec![int(vint(&rx[0]).unwrap())])
                 .collect();
             Family { name: "anti-join-not-in-correlated", members, expected }
+        }
+        5 | 6 => {
+            // compound join conditions: an equi-join OR / AND a one-sided filter, written in ON
+            // (where the join algorithm is chosen from the condition) and as cross join + WHERE
+            let v = rng.range(-1, 4);
+            let fc = *rng.pick(&["a", "b"]);
+            let fi = col_idx(fc);
+            let side_x = rng.chance(1, 2);
+            let filter_sql = format!("{}.{} {} {}", if side_x { "x" } else { "y" }, fc, rng.pick(&["=", "="]), v);
+            let or = rng.chance(2, 3);
+            let cond = if or { format!("x.{} = y.{} OR {}", cx, cy, filter_sql) } else { format!("x.{} = y.{} AND {}", cx, cy, filter_sql) };
+            let members = vec![
+                format!("SELECT x.id, y.id FROM {} INNER JOIN {} ON {}", fx, fy, cond),
+                format!("SELECT x.id, y.id FROM {} INNER JOIN {} ON {}", fy, fx, cond),
+                format!("SELECT x.id, y.id FROM {}, {} WHERE {}", fx, fy, cond),
+                format!("SELECT x.id, y.id FROM {} CROSS JOIN {} WHERE ({})", fx, fy, cond),
+            ];
+            let mut expected = Vec::new();
+            for rx in &tx.rows {
+                for ry in &ty.rows {
+                    let e = eq3(&rx[ix], &ry[iy]);
+                    let f = vint(&(if side_x { rx } else { ry })[fi]).map(|b| b == v);
+                    // three-valued OR / AND: the pair qualifies only when the result is TRUE
+                    let keep = if or { e == Some(true) || f == Some(true) } else { e == Some(true) && f == Some(true) };
+                    if keep {
+                        expected.push(vec![int(vint(&rx[0]).unwrap()), int(vint(&ry[0]).unwrap())]);
+                    }
+                }
+            }
+            Family { name: if or { "inner-join-on-or" } else { "inner-join-on-and" }, members, expected }
         }
         0 => {
             // inner equi-join written five ways
